@@ -83,12 +83,71 @@ fn attempt(t: &mut Tape, m: &[u64], k: usize, accept: Option<bool>, out: &mut Ve
     let mut cand: Limbs = ms.to_vec();
     let acc_kinds = 5;
     let rej_kinds = 5;
+    // two more kinds (ids 10, 11): the comparison with the modulus is decided at a chosen limb, with
+    // every limb above it equal to the modulus' and the limbs below it free — the partition of a
+    // lexicographic comparison by its deciding position
     let kind = match accept {
-        Some(true) => t.below(acc_kinds),
-        Some(false) => acc_kinds + t.below(rej_kinds),
-        None => t.below(acc_kinds + rej_kinds),
+        Some(true) => {
+            if t.chance(1, 3) {
+                10
+            } else {
+                t.below(acc_kinds)
+            }
+        }
+        Some(false) => {
+            if t.chance(1, 3) {
+                11
+            } else {
+                acc_kinds + t.below(rej_kinds)
+            }
+        }
+        None => {
+            if t.chance(1, 3) {
+                10 + t.below(2)
+            } else {
+                t.below(acc_kinds + rej_kinds)
+            }
+        }
     };
+    if kind >= 10 {
+        let less = kind == 10;
+        // deciding limbs that can move in the wanted direction
+        let ok: Vec<usize> = (0..k).filter(|&i| if less { ms[i] > 0 } else { ms[i] < if i == k - 1 { mask } else { M } }).collect();
+        if ok.is_empty() {
+            // nothing smaller (m = 0 cannot happen) / nothing greater under the mask: fall back
+            if less {
+                cand.iter_mut().for_each(|w| *w = 0);
+            }
+        } else {
+            let i = ok[t.index(ok.len())];
+            cand[i] = match (less, t.below(3)) {
+                (true, 0) => ms[i] - 1,
+                (true, 1) => 0,
+                (true, _) => t.range(0, ms[i] - 1),
+                (false, 0) => ms[i] + 1,
+                (false, 1) => {
+                    if i == k - 1 {
+                        mask
+                    } else {
+                        M
+                    }
+                }
+                (false, _) => t.range(ms[i] + 1, if i == k - 1 { mask } else { M }),
+            };
+            let below = t.below(5);
+            for j in 0..i {
+                cand[j] = match below {
+                    0 => 0,
+                    1 => M,
+                    2 => ms[j],
+                    3 => t.pick(&[0u64, M, 1, ms[j], ms[j].wrapping_add(1), ms[j].wrapping_sub(1)]),
+                    _ => t.u64(),
+                };
+            }
+        }
+    }
     match kind {
+        10 | 11 => {}
         0 => gen::dec(&mut cand), // m-1
         1 => cand.iter_mut().for_each(|w| *w = 0),
         2 => {
